@@ -411,9 +411,49 @@ def loops_to_comps(body: list[ast.stmt]) -> list[ast.stmt]:
                 out.append(new)
                 i += 2
                 continue
-        out.append(s)
+        ext = _extend_loop(s)
+        out.append(ext if ext is not None else s)
         i += 1
     return out
+
+
+def _extend_loop(loop):
+    """for v in S: [x = E1;] [if C:] acc.append(E)   (acc built elsewhere)   ->   acc += [E for v in S if C]"""
+    if not isinstance(loop, ast.For) or loop.orelse or not loop.body:
+        return None
+    mapping: dict[str, ast.expr] = {}
+    stmts = list(loop.body)
+    for j, st in enumerate(stmts[:-1]):
+        if isinstance(st, ast.Assign) and len(st.targets) == 1 and isinstance(st.targets[0], ast.Name):
+            mapping[st.targets[0].id] = _Subst(mapping).visit(copy.deepcopy(st.value))
+        else:
+            return None
+    last = stmts[-1]
+    cond = None
+    inner = last
+    if isinstance(last, ast.If):
+        if len(last.body) == 1 and not last.orelse:
+            cond, inner = last.test, last.body[0]
+        elif all(isinstance(x, ast.Pass) for x in last.body) and len(last.orelse) == 1:
+            cond, inner = ast.UnaryOp(op=ast.Not(), operand=last.test), last.orelse[0]
+        else:
+            return None
+    if not (isinstance(inner, ast.Expr) and isinstance(inner.value, ast.Call) and isinstance(inner.value.func, ast.Attribute) and inner.value.func.attr == "append"
+            and isinstance(inner.value.func.value, ast.Name) and len(inner.value.args) == 1 and not inner.value.keywords):
+        return None
+    acc = inner.value.func.value.id
+    loopvars = {n.id for n in ast.walk(loop.target) if isinstance(n, ast.Name)}
+    if acc in loopvars or acc in mapping:
+        return None
+    elt = _Subst(mapping).visit(copy.deepcopy(inner.value.args[0]))
+    c2 = _Subst(mapping).visit(copy.deepcopy(cond)) if cond is not None else None
+    if any(isinstance(n, ast.Name) and n.id == acc for x in ([elt] + ([c2] if c2 is not None else []) + [loop.iter]) for n in ast.walk(x)):
+        return None
+    comp = ast.ListComp(elt=elt, generators=[ast.comprehension(target=loop.target, iter=loop.iter, ifs=[c2] if c2 is not None else [], is_async=0)])
+    new = ast.AugAssign(target=ast.Name(id=acc, ctx=ast.Store()), op=ast.Add(), value=comp)
+    ast.copy_location(new, loop)
+    ast.fix_missing_locations(new)
+    return new
 
 
 def normalise_loops(stmts: list[ast.stmt]) -> list[ast.stmt]:
